@@ -8,6 +8,12 @@ COMMON_TRUSTED = [
 ]
 
 CONF = {
+    "C02": {
+        "n": {"quick": 1200, "thorough": 16000},
+        "shard": 600,
+        "trusted_base": ["the regular expressions listPathRe / listPropRe are re-implemented as string functions and compared on every generated path and on adversarial raw strings"],
+        "assumptions": ["keys are non-empty over [A-Za-z0-9_-] (key_safe); 'that very leaf' (pointer identity) is a Go-side oracle, the model compares values"],
+    },
     "C04": {
         "n": {"quick": 900, "thorough": 12000},
         "shard": 500,
